@@ -78,6 +78,9 @@ Definition ctor_from (prefix command : str) (args : list str) (m : msg) : msg :=
       (match command with [] => m_command m | _ => command end)
       (match args with [] => m_args m | _ => args end).
 
+(* IrcMsg(msg=m) with no other argument: a copy *)
+Definition copy_msg (m : msg) : msg := ctor_from [] [] [] m.
+
 (* privmsg / notice / action(recipient, s, prefix='', msg=None), strictRfc off *)
 Definition maker (cmd recipient s prefix : str) (mo : option msg) : res msg :=
   match mo with
